@@ -25,8 +25,11 @@ class Scratch:
 
 
 def run(cmd, cwd=None, timeout=600, env=None):
-    p = subprocess.run(cmd, cwd=cwd, capture_output=True, text=True, timeout=timeout,
-                       env=dict(os.environ, **env) if env else None)
+    try:
+        p = subprocess.run(cmd, cwd=cwd, capture_output=True, text=True, timeout=timeout,
+                           env=dict(os.environ, **env) if env else None)
+    except subprocess.TimeoutExpired:
+        return -999, "", f"timed out after {timeout}s"
     return p.returncode, p.stdout, p.stderr
 
 
